@@ -434,9 +434,9 @@ namespace
     };
     typedef igris::dlist<XItem, &XItem::lnk> XList;
     enum { X_FRONT, X_BACK, X_NEXT_OF, X_PREV_OF, X_NODE_NEXT, X_NODE_PREV, X_POP, X_POP_FRONT, X_POP_BACK, X_UNLINK, X_CLEAR, X_SPLICE,
-           X_ITEM_DEATH, X_LIST_DEATH, X_NEXT_OF_END, X_PREV_OF_END, X_PREV_OF_BEGIN, X_N };
+           X_ITEM_DEATH, X_LIST_DEATH, X_NEXT_OF_END, X_PREV_OF_END, X_PREV_OF_BEGIN, X_LIVE_ITER, X_N };
     const char *X_NAME[] = {"move_front", "move_back", "move_next(obj,obj)", "move_prev(obj,obj)", "node.move_next_than", "node.move_prev_than", "pop(obj)", "pop_front",
-                            "pop_back", "unlink", "clear", "splice_all_from", "item_death", "list_death", "move_next(obj,end())", "move_prev(obj,end())", "move_prev(obj,begin())"};
+                            "pop_back", "unlink", "clear", "splice_all_from", "item_death", "list_death", "move_next(obj,end())", "move_prev(obj,end())", "move_prev(obj,begin())", "step_live_iterators_after_a_change"};
 
     struct XDlistWorld : World
     {
@@ -741,6 +741,44 @@ namespace
                     st[i] = LINKED;
                     moves++;
                     probe("move_relative_to_boundary_iterator");
+                    break;
+                }
+                case X_LIVE_ITER:
+                {
+                    // iterators of a node-based list stay on their element while its neighbours come and go: a forward and a reverse
+                    // iterator stand on an element, one neighbour is removed or a new one is linked in next to it, then both are
+                    // stepped once and must arrive at the element's neighbours of that moment (or at end() / rend()); end() and
+                    // rend() taken before the change still compare equal to the ones taken after it
+                    if (m[l].empty()) { done = false; break; }
+                    int cur = m[l][(size_t)t % m[l].size()];
+                    XList::iterator fit = L.begin();
+                    while (&*fit != it[cur].get()) ++fit;
+                    XList::reverse_iterator rit = L.rbegin();
+                    while (&*rit != it[cur].get()) ++rit;
+                    XList::iterator old_end = L.end();
+                    XList::reverse_iterator old_rend = L.rend();
+                    size_t pos = (size_t)(std::find(m[l].begin(), m[l].end(), cur) - m[l].begin());
+                    int action = (int)mod(arg(o, 4) + arg(o, 1), 5);
+                    int fresh = -1;
+                    for (int q = 0; q < ni; q++)
+                        if (st[q] == UNLINKED && it[q]) { fresh = q; break; }
+                    if (action == 0 && pos + 1 < m[l].size()) { int v = m[l][pos + 1]; it[v]->lnk.unlink(); unlink_model(v); }
+                    else if (action == 1 && pos > 0) { int v = m[l][pos - 1]; L.pop(*it[v]); unlink_model(v); }
+                    else if (action == 2 && fresh >= 0) { L.move_next(*it[fresh], *it[cur]); ins_rel(fresh, cur, true); }
+                    else if (action == 3 && fresh >= 0) { L.move_prev(*it[fresh], *it[cur]); ins_rel(fresh, cur, false); }
+                    else if (action == 4 && pos > 0) { int v = m[l].front(); L.pop_front(); unlink_model(v); }
+                    else { done = false; break; }
+                    pos = (size_t)(std::find(m[l].begin(), m[l].end(), cur) - m[l].begin());
+                    ++fit;
+                    ++rit;
+                    if (pos + 1 < m[l].size() ? (fit == L.end() || &*fit != it[m[l][pos + 1]].get()) : !(fit == L.end()))
+                        violate("C01/cxx-dlist-live-iterator", "a forward iterator standing on an element was stepped after a neighbour of that element was %s: it did not arrive at the element's successor of that moment",
+                                action <= 1 || action == 4 ? "removed" : "linked in");
+                    if (pos > 0 ? (rit == L.rend() || &*rit != it[m[l][pos - 1]].get()) : !(rit == L.rend()))
+                        violate("C01/cxx-dlist-live-iterator", "a reverse iterator standing on an element was stepped after a neighbour of that element was %s: it did not arrive at the element's predecessor of that moment",
+                                action <= 1 || action == 4 ? "removed" : "linked in");
+                    if (!(old_end == L.end()) || !(old_rend == L.rend())) violate("C01/cxx-dlist-live-iterator", "end() / rend() taken before a change of the list differ from the ones taken after it");
+                    probe("live_iterator_stepped_after_change");
                     break;
                 }
                 case X_POP:
